@@ -78,6 +78,10 @@ def run_script(case):
             if b["status"] in ("Unmatched", "Suspended"):
                 c = b["remaining_size"]; b["remaining_size"] = 0.0; b["status"] = "Cancelled" if not b["matched_size"] else "Matched"; bump(b)
                 reports.append({"order_id": oid, "cancelled_forside_stake": c})
+            else:
+                # nothing left to cancel (matched / cancelled meanwhile): assumed to be reported with nothing cancelled (the benign reading of the API;
+                # an exchange that OMITS such an order from its answer would send flumine down its "not returned -> executable" path)
+                reports.append({"order_id": oid, "cancelled_forside_stake": 0.0})
         return reports
 
     bc = mock.Mock(); bc.username = "betdaq-user"; bc.lightweight = False
@@ -92,6 +96,18 @@ def run_script(case):
     market = fw._add_market(MARKET_ID, market_book)
     names = {}
     out = []
+
+    def blocked():
+        return any(not ev.is_set() for ev in holds.values())
+
+    def pool_idle():
+        # BETDAQ execution has ONE worker: a no-op submitted now runs after everything queued before it.  While a held placement answer blocks the
+        # worker nothing else can be answered (the requests queue up behind it and are answered after the release).
+        if not blocked():
+            try:
+                fw.betdaq_execution._thread_pool.submit(lambda: None).result(timeout=5)
+            except Exception:
+                pass
 
     def dump(res):
         bl = market.blotter
@@ -122,15 +138,15 @@ def run_script(case):
                 ok = market.place_order(o)
                 res = {"accepted": bool(ok)}
                 if ok:
-                    entered[ref].wait(5)
+                    if not blocked() or hold:
+                        entered[ref].wait(5) if not any(not ev.is_set() for r_, ev in holds.items() if r_ != ref) else None
                     if not hold:
-                        wait_for(lambda: o.bet_id is not None and o.status is not None and o.status.value != "Pending")
+                        pool_idle()
             elif st[0] == "release":
                 o = names.get(st[1])
                 if o is not None and int(o.id) in holds:
                     holds[int(o.id)].set()
-                    wait_for(lambda: bool(o.responses.place_response))
-                    time.sleep(0.02)
+                    pool_idle()
             elif st[0] == "xmatch":
                 o = names.get(st[1])
                 b = next((b for b in bets.values() if o is not None and b["customer_reference"] == int(o.id)), None)
@@ -157,8 +173,7 @@ def run_script(case):
                     except Exception as e:
                         res = {"exc": type(e).__name__}
                     if res.get("accepted"):
-                        wait_for(lambda: len(o.responses.update_responses) > n0)
-                        time.sleep(0.01)
+                        pool_idle()
             elif st[0] == "cancel":
                 o = names.get(st[1])
                 if o is not None and o.bet_id and o.status is not None and o.status.value == "Executable":
@@ -167,7 +182,7 @@ def run_script(case):
                     except Exception as e:
                         res = {"exc": type(e).__name__}
                     if res.get("accepted"):
-                        wait_for(lambda: o.status.value != "Cancelling")
+                        pool_idle()
             out.append(dump(res))
     finally:
         for ev in holds.values():
